@@ -245,13 +245,35 @@ Section Knobs.
     - apply andb_true_iff in H. destruct H as [_ H]. eapply IH; eauto.
   Qed.
 
+  (* the transform hook of target i (TId when there is none) *)
+  Definition tr_at (i : nat) : ttrans F := nth i (c_ttrans cf) TId.
+
+  Lemma transformed_nth : forall ts r i ri, nth_error r i = Some ri ->
+    nth_error (transformed E ts r) i = Some (apply_tr E (nth i ts TId) ri).
+  Proof.
+    intros ts r; revert ts; induction r as [|x r IH]; intros ts [|i] ri H; cbn in *; try discriminate.
+    - inversion H; subst. destruct ts; reflexivity.
+    - rewrite (IH (tl ts) i ri H). destruct ts; cbn; auto. destruct i; reflexivity.
+  Qed.
+
+  Lemma map2_sub_nth (a tv : list F) i x v :
+    nth_error a i = Some x -> nth_error tv i = Some v -> nth_error (map2 (e_sub E) a tv) i = Some (e_sub E x v).
+  Proof.
+    revert tv i; induction a as [|y a IH]; intros [|z tv] [|i]; cbn; try discriminate.
+    - intros H1 H2; inversion H1; inversion H2; subst; auto.
+    - apply IH.
+  Qed.
+
   Lemma within_nth r i ri v t :
     nth_error r i = Some ri -> nth_error (c_tval cf) i = Some v -> nth_error (c_tol cf) i = Some t ->
-    nth_error (within E cf r) i = Some (ltb (e_abs E (e_sub E ri v)) t).
+    nth_error (within E cf r) i = Some (ltb (e_abs E (e_sub E (apply_tr E (tr_at i) ri) v)) t).
   Proof.
-    unfold within, residual. generalize (c_tval cf) (c_tol cf). revert r.
-    induction i as [|i IH]; intros [|x r] [|y tv] [|z tl]; cbn; try discriminate.
-    - intros H1 H2 H3; inversion H1; inversion H2; inversion H3; subst; auto.
+    intros Hr Hv Ht. unfold within, residual.
+    pose proof (map2_sub_nth _ _ i _ _ (transformed_nth (c_ttrans cf) r i ri Hr) Hv) as Hs.
+    unfold tr_at. revert Hs Ht. generalize (e_sub E (apply_tr E (nth i (c_ttrans cf) TId) ri) v).
+    generalize (map2 (e_sub E) (transformed E (c_ttrans cf) r) (c_tval cf)) (c_tol cf). clear.
+    induction i as [|i IH]; intros [|x l] [|z tl] e; cbn; try discriminate.
+    - intros H1 H3; inversion H1; inversion H3; subst; auto.
     - apply IH.
   Qed.
 End Knobs.
